@@ -301,8 +301,10 @@ def r5(R, repo):
     for node in ast.walk(m.tree):
       if isinstance(node, ast.Call) and astu.call_tail(node) == 'register_graph_node_type' and not isinstance(astu.parent(node), ast.FunctionDef) and node.keywords:
         n += 1
-        got = sorted(k.arg for k in node.keywords if k.arg != 'type')
-        R.check(got == sorted(want), key_of(m.rel, 'register_graph_node_type supplies all slots'), (m, node), 'graph node registration supplies %s, needs %s' % (got, sorted(want)), evidence=not any(k.arg is None for k in node.keywords))
+        sig = astu.params(repo.func(GR, 'register_graph_node_type').node)
+        npos = len(node.args) if not any(isinstance(a, ast.Starred) for a in node.args) else 0
+        got = sorted(set([k.arg for k in node.keywords if k.arg != 'type'] + [p_ for p_ in sig[:npos] if p_ != 'type']))
+        R.check(got == sorted(want), key_of(m.rel, 'register_graph_node_type supplies all slots'), (m, node), 'graph node registration supplies %s, needs %s' % (got, sorted(want)), evidence=not any(k.arg is None for k in node.keywords) and not any(isinstance(a, ast.Starred) for a in node.args))
         for k in node.keywords:
           if k.arg in want:
             R.check(astu.src(k.value) == 'cls._graph_node_%s' % k.arg, key_of(m.rel, 'slot %s -> _graph_node_%s' % (k.arg, k.arg)), (m, node), 'slot %s is bound to %s' % (k.arg, astu.src(k.value)))
